@@ -3,7 +3,7 @@
 (* Property C18: compaction never loses or overwrites live data            *)
 (* (cascette-client-storage::storage::compaction, archive_file).           *)
 (*                                                                         *)
-(* Three parts, each at two levels:                                        *)
+(* Four parts, (a), (b), (d) at two levels:                                        *)
 (*                                                                         *)
 (*  (a) extract_compact_segment: a file is a sequence of units, a span is  *)
 (*      <<offset, length>> in units.                                       *)
@@ -19,6 +19,8 @@
 (*      code level:     PInit / PStep  - the greedy loop, one step per     *)
 (*                      source                                             *)
 (*  (c) ArchiveManager::compact: ArchOK(objects)          - the judge      *)
+(*  (d) CompactionFileMover::move_data (executes one move of a plan):      *)
+(*      MoveOK - the judge;  MInit / MStep - the chunk loop                *)
 (*                                                                         *)
 (* The code-level operators are *functions on records* so that the same    *)
 (* definition is (1) stepped by MC_Compaction (exhaustive checking that the *)
@@ -232,6 +234,31 @@ PStep(m, size) ==
 RECURSIVE PRun(_, _)
 PRun(m, size) == IF m.pc = "done" THEN m ELSE PRun(PStep(m, size), size)
 PlanImpl(segs, tn, td, size, cursorFixed, noChain) == PRun(PInit(segs, tn, td, size, cursorFixed, noChain), size).plan
+
+\* ===========================================================================
+\* (d) CompactionFileMover::move_data - the primitive that carries out one move of a plan:
+\*     `len` units of the source file at `so` are copied to the destination file at `dof`
+\* ===========================================================================
+CMax(a, b) == IF a > b THEN a ELSE b
+\* dst with `data` written at offset off (off <= Len(dst): overwrite and/or append, no hole)
+Overlay(dst, off, data) ==
+  [p \in 1..CMax(Len(dst), off + Len(data)) |-> IF p > off /\ p <= off + Len(data) THEN data[p - off] ELSE dst[p]]
+
+\* property level; out = [ok, src, dst] (the two files afterwards).  Not covered by any statement and never
+\* generated: a source range beyond the end of the source, a destination offset beyond the end of the destination.
+MoveOK(src, dst, so, dof, len, out) ==
+  IF so + len > Len(src) \/ dof > Len(dst) THEN TRUE
+  ELSE out.ok /\ out.src = src /\ out.dst = Overlay(dst, dof, SubSeq(src, so + 1, so + len))
+
+\* code level: seek both files once, then read_exact / write_all chunk by chunk
+MInit(src, dst, so, dof, len) ==
+  [pc |-> IF len = 0 THEN "done" ELSE "copy", src |-> src, dst |-> dst, sp |-> so, dp |-> dof, rem |-> len, ok |-> TRUE]
+MStep(m, buf) ==
+  IF m.pc # "copy" THEN m
+  ELSE LET ch == CMin(m.rem, buf) IN
+       [m EXCEPT !.dst = Overlay(m.dst, m.dp, SubSeq(m.src, m.sp + 1, m.sp + ch)),
+                 !.sp = m.sp + ch, !.dp = m.dp + ch, !.rem = m.rem - ch,
+                 !.pc = IF m.rem - ch = 0 THEN "done" ELSE "copy"]
 
 \* ===========================================================================
 \* (c) ArchiveManager::compact: every object that was readable stays readable, unchanged,
